@@ -140,6 +140,20 @@ CLAIMED = {
         "serialisers are covered by the crash search and the correspondence (partial). Findings F-C20-1, F-C20-3 (configurations accepted and "
         "failing at the first call).",
    technique="Lean 4 proof (failure-aware model refines to the total model) + exhaustive unit correspondence + crash search", design="5/C04"),
+ "C06": dict(
+   text="Proof: a Lean model of the line tokenizer, token classification and datatype decision of NtTriplesYielder, and a grammar of the "
+        "documents in scope (statement = subject IRI/bnode, predicate IRI, object IRI/bnode/literal whose lexical form is ANY sequence of plain "
+        "characters and escape pairs + none/@lang/^^<datatype>; layout = blanks before/between tokens, blanks or nothing before the dot, blanks "
+        "or a comment after it). Theorem: every rendered line parses to exactly the statement's triple (kinds, IRIs, labels, xsd:string / "
+        "rdf:langString / the datatype), no exception, not an error line; a document yields its triples in order with zero error lines - for "
+        "all lexical forms, unbounded. Tie: Nt.parseLine vs NtTriplesYielder on every generated line. Search: line rendered from a statement, "
+        "read by the real reader, compared with the statement; exhaustive over all contents of <= 2 (quick) / 3 (thorough) atoms of a 24-atom "
+        "adversarial alphabet x 12 suffix forms, random beyond; generator cross-checked with rdflib's N-Triples parser.",
+   note="Trusts Lean's kernel, the hand-written model (tied by correspondence), the generator. str.isnumeric is modelled for ASCII digits only; "
+        "line splitting of the raw string / file is outside the model (covered by the search: U+000C, U+0085, U+2028, U+001D inside literals). "
+        "Four defects repaired (see known_findings.json 'fixed').",
+   technique="Lean 4 proof (parser round trip by induction over the lexical form and the layout) + differential correspondence + exhaustive small-scope search",
+   design="5/C06"),
 }
 PENDING_REASON = "check not built yet (work in progress; see DESIGN.md section 9 for the build order)"
 
